@@ -7,7 +7,8 @@
 EXTENDS Molecules, TLC, Json, IOUtils
 
 CONSTANT NBlocks
-Traces == JsonDeserialize(IOEnv.TRACE_FILE).traces
+ASSUME TLCSet(1, JsonDeserialize(IOEnv.TRACE_FILE).traces)     \* parsed once, not once per worker
+Traces == TLCGet(1)
 VARIABLES blk, tid
 
 AsymSet(atoms) == {atoms[i].asym : i \in DOMAIN atoms}
